@@ -583,9 +583,16 @@ func (f *Func) reachTarget(
 func (f *Func) callDirect(log hclog.Logger, argMap map[interface{}]reflect.Value) Result {
 	// If we have FuncOnce enabled and we've been called before, return
 	// the result we have cached.
-	if f.once && f.onceResult != nil {
-		log.Trace("returning cached result, FuncOnce enabled")
-		return *f.onceResult
+	if f.once {
+		// Hold the lock for the whole execution so that concurrent callers
+		// wait for (and then share) the first result.
+		f.onceLock.Lock()
+		defer f.onceLock.Unlock()
+
+		if f.onceResult != nil {
+			log.Trace("returning cached result, FuncOnce enabled")
+			return *f.onceResult
+		}
 	}
 
 	// Initialize the struct we'll be populating
